@@ -36,7 +36,7 @@ func runMoreSuites(suite string, r *rand.Rand, res *Result, thorough bool) bool 
 	case "txnconc":
 		s := Suite{Name: "txnconc", DriverSuite: "hist", Exec: txnconcExec}
 		res.Rule = "4-16 free-running goroutines on 2-4 shared keys (bank transfers, counters, write-skew pairs, long readers) with rotation and flush forced by small memtables and every flush-queue length; the recorded history (begin/end order, read timestamps, store reads, writes, commit timestamps from the hook) is checked by the Lean history checker: commit order explains every read, real-time order respected; transfer totals conserved; non-trivial = every case (distinct seeds/workloads)"
-		runCases(s, txnconcGen(r, scale(8, 80)), res)
+		runCases(s, txnconcGen(r, scale(10, 100)), res)
 	case "codec":
 		s := Suite{Name: "codec", DriverSuite: "codec", Exec: codecExec}
 		res.Rule = "encoders/decoders of data, index, footer, meta blocks (S2 removed), whole tables through table.Build and the recovery parser (complete and cut files), wal batches and their read-back at random cut lengths, concurrent encoders whose results are re-checked afterwards, key/value lengths around 2^16; non-trivial = every case (distinct inputs) carries at least one of these tags"
